@@ -168,3 +168,40 @@ func VerifC10Race() {
 	verifReach("rolled-over")
 	verifAssert(b.done && b.ok, "C10: a waiting request whose turn has come at the rollover is released, not left to expire")
 }
+
+// VerifC10TTLAtRollover: the waiter's time-to-live ends at the very instant the next window
+// opens, so its TTL branch and the rollover goroutine run concurrently. Every interleaving at
+// synchronisation operations (bounded pre-emptions) plus happens-before race detection: the
+// slot of the new window is spent on the waiter if and only if the waiter is admitted.
+func VerifC10TTLAtRollover() {
+	sec := int64(time.Second)
+	h := &c10H{W: sec}
+	verifSetNow(1_700_000_000*sec + sec/10)
+	q := NewInMemoryDelayedPriorityQueue(QueueKey{RemedyName: "r", Strategy: Strategy{WindowQuota: 1, WindowSize: time.Second}}, verifClock{}, logging.ContextLogger{})
+	verifDrain()
+	a := h.arrive(q, 1, 1, 3*time.Second, 2)
+	verifDrain()
+	verifAssert(a.done && a.ok, "the first request is released at once")
+	ttl := time.Duration(sec - verifNow()%sec) // ends exactly when the next window opens
+	b := h.arrive(q, 2, 1, ttl, 2)
+	b.waited = true
+	verifDrain()
+	verifAssert(!b.done, "the second request waits")
+	verifSched(int(verifParam("preempt", 2)))
+	verifAdvanceLazy(int64(ttl)) // both timers fire; neither goroutine has run yet
+	verifDrain()
+	verifSched(-1)
+	verifDrain()
+	verifReach("rolled-over")
+	verifAssert(b.done, "C10: a waiter gets its verdict when its time-to-live ends")
+	q.mutex.Lock()
+	spent := q.currentWindowCounter
+	q.mutex.Unlock()
+	if b.ok {
+		verifReach("admitted")
+		verifAssert(spent == 1, "C10: an admitted waiter is accounted for in its window")
+	} else {
+		verifReach("expired")
+		verifAssert(spent == 0, "C10: a waiter rejected as expired was not granted (and charged) the slot of the new window")
+	}
+}
